@@ -90,6 +90,17 @@ theorem provider_get {s : V1State} (h : s.WF) (valid : Bool) (t k : Bytes) : (s.
   provider_getG d5 h valid t k
 -- WF is needed: the provider searches a flat event list by the events' own (type, state_key), the lookup goes by slot.
 
+/-- the model's own slot lookup is the lookup function -/
+theorem V1State.authEventAt_eq_lookup (s : V1State) (t k : Bytes) : s.authEventAt t k = s.lookup t k := by
+  unfold V1State.authEventAt V1State.lookup lookupG lookupOpt
+  simp only [beq_iff_eq, List.isEmpty_iff]
+
+/-- in a well-formed state an event found under a slot is a state event of exactly that slot (so `addAuthEvent`
+    stores it there again) -/
+theorem lookup_some_authEff {s : V1State} (h : s.WF) {t k : Bytes} {p : Event} (hl : s.lookup t k = some p) : authEff p t k :=
+  lookupG_some_eff h hl
+-- WF: a slot could otherwise hold an event of another type / state key.
+
 theorem authEff_key {e : Event} {t k : Bytes} (h : authEff e t k) : e.stateKey.isSome ∧ keyOf e = (t, k) := by
   obtain ⟨h1, h2, _⟩ := h
   unfold keyOf; rw [h1, h2]; exact ⟨rfl, rfl⟩
